@@ -188,6 +188,8 @@ def st_b64_payload(draw: st.DrawFn, spec: dict, entry: zoo.Entry, n: int, decoda
 # ----------------------------------------------------------------------------------------------
 # frames
 
+_JSONRAW_MAX_PAD = 2  # longest trailing padding drawn below
+
 
 @st.composite
 def st_sep_frame(draw: st.DrawFn, spec: dict, entry: zoo.Entry, limit: int) -> bytes:
@@ -213,7 +215,7 @@ def st_sep_frame(draw: st.DrawFn, spec: dict, entry: zoo.Entry, limit: int) -> b
 
 
 @st.composite
-def st_other_frame(draw: st.DrawFn, spec: dict, entry: zoo.Entry, limit: int | None, last: bool) -> bytes:
+def st_other_frame(draw: st.DrawFn, spec: dict, entry: zoo.Entry, limit: int | None, last: bool, first: bool = False) -> bytes:
     """self-delimiting formats: every frame safely under the limit, except (optionally) the last one — without a
     terminator nothing can be demanded after a size rejection"""
     kind = refdecode.framing_kind(spec)
@@ -223,16 +225,25 @@ def st_other_frame(draw: st.DrawFn, spec: dict, entry: zoo.Entry, limit: int | N
         size = draw(st.integers(1, limit - 1))
         if last and draw(st.integers(0, 2)) == 0:
             size = draw(st.integers(limit, 3 * limit))
+        # legal but unusual: white space around a document (a peer may pretty-print or separate documents by blank
+        # lines).  Trailing white space that arrives in a later read is leading white space of the next parse, so the
+        # size budget of a frame reserves room for its own padding and for the previous frame's trailing padding.
+        # (white space between two documents is generated as the trailing padding of the first: that is how the
+        # reference splitter attributes it; only the first frame of a stream can have leading padding of its own)
+        lead = draw(st.sampled_from([b"", b"", b" ", b"\n", b"\r\n", b"\t "])) if first else b""
+        trail = draw(st.sampled_from([b"", b"", b"", b" ", b"\n", b"\r\n", b" \t"]))
         plain = draw(st.integers(0, 3)) == 0
+        if size <= limit - 1:
+            size = max(1, size - len(lead) - len(trail) - _JSONRAW_MAX_PAD)
         if plain:
             n = max(1, size - 1)
             body = (b"x" * n) if bad else draw(st.sampled_from([b"1", b"7", b"12"])) * n
-            return body[:n] + b"\n"
+            return lead + body[:n] + draw(st.sampled_from([b"\n", b"\n", b" ", b"\r\n", b"\t"])) + trail[:1]
         for _ in range(3):
             doc = draw(st_json_doc(max(size, 2), not bad))
             if doc[:1] in (b"{", b"[", b'"'):
-                return doc
-        return b'"' + b"a" * max(size - 2, 0) + b'"'
+                return lead + doc + trail
+        return lead + b'"' + b"a" * max(size - 2, 0) + b'"' + trail
     if kind == "hfile":
         assert limit is not None
         size = draw(st.integers(2, max(2, limit - 1)))
@@ -310,7 +321,7 @@ def st_case(draw: st.DrawFn, tier: str) -> dict:
             assert limit is not None
             frames.append(draw(st_sep_frame(spec, entry, limit)))
         else:
-            frames.append(draw(st_other_frame(spec, entry, limit, i == nframes - 1)))
+            frames.append(draw(st_other_frame(spec, entry, limit, i == nframes - 1, i == 0)))
     stream = b"".join(frames)
     bounds = _boundaries(frames)
     seplen = zoo.seplen_for_limit(entry)
@@ -508,3 +519,8 @@ CHECK = Check(
         "buffered-path leftover is read from the consumer's private re-injection counter",
     ],
 )
+
+# thorough tier: the same strategy and oracle driven by the coverage-guided engine (pbt/covfuzz.py)
+from ..covfuzz import cov_layer  # noqa: E402
+
+CHECK.layers.append(cov_layer("C02", CHECK.layer("frames"), runs=8000, time_s=100))
